@@ -22,10 +22,12 @@ THEOREMS = [
     "NakenVerif.C15.i8008_run_no_fault", "NakenVerif.C15.i8008_no_hidden_input",
     "NakenVerif.C15.lc3_step_total_no_fault", "NakenVerif.C15.lc3_run_no_fault", "NakenVerif.C15.lc3_set_reg_no_fault",
     "NakenVerif.C15.lc3_stop_running_is_an_input",
+    "NakenVerif.C15.m6502_step_total_no_fault", "NakenVerif.C15.m6502_invariant_established", "NakenVerif.C15.m6502_run_no_fault",
+    "NakenVerif.C15.m6502_pc_after_non_branching", "NakenVerif.C15.m6502_stop_running_is_an_input",
 ]
 REG_NAME_PROBES = ["nosuchreg", "r", "r8", "r9", "r15", "r16", "r31", "r32", "r64", "r99", "r100", "r:", "rz", "r/", "R8", "x8",
                    "x31", "x32", "x99", "$0", "$31", "$32", "$99", "a0", "d8", "f32", "sp", "pc", "r-1", "w8", "r4294967296", "x4294967327", "r00000000008", "$-1", "x-1"]
-SIMX_MODELLED = ["tms1000", "8008", "lc3"]   # simulators with a Lean step model tied by the `simx` stream
+SIMX_MODELLED = ["tms1000", "8008", "lc3", "6502"]   # simulators with a Lean step model tied by the `simx` stream
 SIMULATORS = {   # cpu_list name -> register names accepted by its set_reg (a few), value mask
     "msp430": (["r4", "r5", "sp", "sr"], 0xffff), "1802": (["r0", "r1", "d"], 0xffff), "6502": (["a", "x", "y", "sp"], 0xff),
     "65816": (["a", "x", "y", "sp"], 0xffff), "8008": (["a", "b", "c"], 0xff), "avr8": (["r0", "r16", "r30"], 0xff),
